@@ -234,7 +234,7 @@ def run_driver(binary, args, timeout=3600, env=None):
     if p.returncode != 0 or "DRIVER-OK" not in p.stdout:
         raise Inconclusive("driver failed (rc %d): %s %s\nstdout: %s\nstderr: %s" % (
             p.returncode, binary, " ".join(args), p.stdout[-2000:], p.stderr[-4000:]))
-    log("[driver] %s %s: %s (%.1fs)" % (os.path.basename(binary), " ".join(a for a in args if not a.startswith("/")),
+    log("[driver] %s %s: %s (%.1fs)" % (os.path.basename(binary), " ".join((a if len(a) < 40 else a[:37] + "...") for a in args if not a.startswith("/")),
                                         p.stdout.strip().splitlines()[-1], time.time() - t))
     return p
 
